@@ -2,6 +2,7 @@ package main
 
 import (
 	"fmt"
+	"go/token"
 	"go/types"
 	"strings"
 
@@ -111,7 +112,11 @@ func (vc *VC) callFunction(fx *FuncCtx, st *State, fn *ssa.Function, args []Val,
 		if fn == vc.fn {
 			recursive = true
 		}
-		if !recursive && len(vc.inlineStk) < maxInlineDepth && vc.inlineable(fn) {
+		forced := false
+		if fc := vc.prog.ContractForFunc(fn); fc != nil && fc.Flags["inline"] {
+			forced = true
+		}
+		if !recursive && len(vc.inlineStk) < maxInlineDepth && (forced || vc.inlineable(fn)) {
 			return vc.inline(fx, st, fn, args, bound, rt)
 		}
 		vc.unmod[funcDisplayName(fn)+" (no contract, not inlined: default frame)"] = true
@@ -285,7 +290,17 @@ func shortName(s string) string {
 	return s
 }
 
+// library value types that are never modified after construction
+var immutableLibTypes = []string{"encoding.base64.Encoding", "encoding.base32.Encoding", "log.Logger", "time.Location", "regexp.Regexp"}
+
 func (vc *VC) havocArg(st *State, a Val, t types.Type, why string) {
+	if pt, ok := under(t).(*types.Pointer); ok {
+		for _, im := range immutableLibTypes {
+			if typeKey(pt.Elem()) == im {
+				return
+			}
+		}
+	}
 	switch u := under(t).(type) {
 	case *types.Interface:
 		if iv, ok := a.(*IfaceV); ok && writesThroughIface[shortName(why)] {
@@ -358,11 +373,11 @@ func (vc *VC) callInvoke(fx *FuncCtx, st *State, c *ssa.CallCommon, recv Val, ar
 	full := append([]Val{recv}, args...)
 	if fc := vc.prog.ContractForMethod(m); fc != nil {
 		iv := st.toIface(recv)
-		vc.check(fx, st, Not(Eq(iv.Tag, IntC(0))), "method call on nil interface", instr.Pos())
+		vc.check(fx, st, Not(Eq(iv.Tag, IntC(0))), "method call on nil interface", posOf(instr))
 		return vc.applyContract(fx, st, fc, m.Type().(*types.Signature), full, rt, recvQual(m)+"."+m.Name())
 	}
 	if iv, ok := recv.(*IfaceV); ok {
-		vc.check(fx, st, Not(Eq(iv.Tag, IntC(0))), "method call on nil interface", instr.Pos())
+		vc.check(fx, st, Not(Eq(iv.Tag, IntC(0))), "method call on nil interface", posOf(instr))
 	}
 	name := recvQual(m) + "." + m.Name()
 	if m.Pkg() == nil && m.Name() == "Error" {
@@ -562,12 +577,12 @@ func (vc *VC) send(fx *FuncCtx, fr *Frame, st *State, s *ssa.Send) {
 // ghostSend counts messages placed on a channel (ghost outbox): "sent:<chan type>"[ch] += 1 and
 // records the last value sent.
 func (vc *VC) ghostSend(st *State, ct types.Type, ch *Term, v Val, vt types.Type) {
-	key := "ghost:sent<" + types.TypeString(ct, qualShort) + ">"
+	key := "ghost:sent<" + chanKey(ct) + ">"
 	ki := vc.reg.get(key, 1, IntSort, nil)
 	h := st.heapVar(ki)
 	st.heap[key] = Store(h, ch, Add(Select(h, ch), IntC(1)))
 	if s := scalarSort(vt); s != nil {
-		lk := "ghost:last<" + types.TypeString(ct, qualShort) + ">"
+		lk := "ghost:last<" + chanKey(ct) + ">"
 		kl := vc.reg.get(lk, 1, s, nil)
 		st.heap[lk] = Store(st.heapVar(kl), ch, st.toTerm(v, vt))
 	}
@@ -604,4 +619,12 @@ func (vc *VC) selectStmt(fx *FuncCtx, fr *Frame, st *State, s *ssa.Select) Val {
 		vs = append(vs, fv)
 	}
 	return &TupleV{Vs: vs}
+}
+
+
+func posOf(in ssa.Instruction) token.Pos {
+	if in == nil {
+		return token.NoPos
+	}
+	return in.Pos()
 }
